@@ -1071,6 +1071,94 @@ func enumPaths(start *ssa.BasicBlock, stop func(*ssa.BasicBlock) bool, max int, 
 	return ok
 }
 
+// constOnAllPaths: on every feasible path from the function entry to target, the branch conditions comparing v with
+// integer constants (v == k, v != k, either operand order) imply v == k for one and the same k. Paths whose conditions
+// contradict each other are infeasible and ignored. ok is false when some feasible path leaves v undetermined.
+func constOnAllPaths(fn *ssa.Function, v ssa.Value, target *ssa.BasicBlock) (int64, bool) {
+	var res int64
+	have, bad := false, false
+	done := constFactsOnPaths(fn, v, target, func(eq, ne map[int64]bool) {
+		for k := range eq {
+			if have && res != k {
+				bad = true
+			}
+			res, have = k, true
+			return
+		}
+		bad = true // a feasible path that does not determine v
+	})
+	return res, done && have && !bad
+}
+
+// excludedOnAllPaths: on every feasible path from the entry to target the comparisons imply v != k for every k given
+// (and do not pin v to a constant).
+func excludedOnAllPaths(fn *ssa.Function, v ssa.Value, target *ssa.BasicBlock, ks ...int64) bool {
+	ok, any := true, false
+	done := constFactsOnPaths(fn, v, target, func(eq, ne map[int64]bool) {
+		any = true
+		if len(eq) > 0 {
+			ok = false
+		}
+		for _, k := range ks {
+			if !ne[k] {
+				ok = false
+			}
+		}
+	})
+	return done && any && ok
+}
+
+// constFactsOnPaths enumerates the feasible paths entry → target and hands the equalities / inequalities between v and
+// integer constants collected along each to visit.
+func constFactsOnPaths(fn *ssa.Function, v ssa.Value, target *ssa.BasicBlock, visit func(eq, ne map[int64]bool)) bool {
+	return enumPaths(fn.Blocks[0], func(b *ssa.BasicBlock) bool { return b == target }, 20000, func(path []*ssa.BasicBlock) {
+		if path[len(path)-1] != target {
+			return
+		}
+		eq := map[int64]bool{}
+		ne := map[int64]bool{}
+		for i := 0; i+1 < len(path); i++ {
+			iff := blockIf(path[i])
+			if iff == nil || path[i].Succs[0] == path[i].Succs[1] {
+				continue
+			}
+			cond, neg := stripNot(iff.Cond)
+			b, isB := cond.(*ssa.BinOp)
+			if !isB || (b.Op != token.EQL && b.Op != token.NEQ) {
+				continue
+			}
+			var k int64
+			var isK bool
+			if b.X == v {
+				k, isK = constInt(b.Y)
+			} else if b.Y == v {
+				k, isK = constInt(b.X)
+			}
+			if !isK {
+				continue
+			}
+			isEq := (b.Op == token.EQL) == (path[i+1] == path[i].Succs[0])
+			if neg {
+				isEq = !isEq
+			}
+			if isEq {
+				eq[k] = true
+			} else {
+				ne[k] = true
+			}
+		}
+		if len(eq) > 1 {
+			return // infeasible
+		}
+		for k := range eq {
+			if ne[k] {
+				return // infeasible
+			}
+		}
+		visit(eq, ne)
+	})
+}
+
 // isPanicBlock: block ends in panic (infeasible "blocking select matched no case" arms, explicit panics).
 func isPanicBlock(b *ssa.BasicBlock) bool {
 	if len(b.Instrs) == 0 {
@@ -1379,6 +1467,14 @@ func newGlobalInit(g *ssa.Global) ssa.Value {
 	if _, known := knownMembers[pkgKey(g.Pkg.Pkg.Path())+":var:"+g.Name()]; known || len(knownMembers) == 0 {
 		return nil
 	}
+	v := onceInit(g)
+	globalInitCache[g] = v
+	return v
+}
+
+// onceInit: the constant-built value a package variable is assigned exactly once, in the package initialiser
+// (its address is never taken and nothing else stores to it); nil otherwise.
+func onceInit(g *ssa.Global) ssa.Value {
 	var val ssa.Value
 	n := 0
 	addrTaken := false
@@ -1424,7 +1520,6 @@ func newGlobalInit(g *ssa.Global) ssa.Value {
 	if n != 1 || val == nil || addrTaken || !constBuilt(val, 0) {
 		return nil
 	}
-	globalInitCache[g] = val
 	return val
 }
 
@@ -1559,6 +1654,27 @@ func dependsOn(v, src ssa.Value) bool {
 			v = x.X
 		default:
 			return false
+		}
+	}
+	return false
+}
+
+// computedFrom: src is among the (transitive) operands of v.
+func computedFrom(v, src ssa.Value, depth int, seen map[ssa.Value]bool) bool {
+	if v == src {
+		return true
+	}
+	if v == nil || depth > 12 || seen[v] {
+		return false
+	}
+	seen[v] = true
+	in, ok := v.(ssa.Instruction)
+	if !ok {
+		return false
+	}
+	for _, op := range in.Operands(nil) {
+		if *op != nil && computedFrom(*op, src, depth+1, seen) {
+			return true
 		}
 	}
 	return false
@@ -1979,6 +2095,63 @@ func newFieldInit(fa *ssa.FieldAddr) ssa.Value {
 	}
 	fieldInitCache[f] = val
 	return val
+}
+
+// nilOnlyVia: v is herr itself, or an error-threaded phi (the joined error of an in-lined helper) that can be nil only
+// when it came in through herr: every other edge carries an error that is non-nil on that edge (the edge leaves the
+// true side of `e != nil`, or carries a non-nil constant / fresh error). Then `v == nil` implies that the call
+// producing herr was executed and succeeded.
+func nilOnlyVia(v, herr ssa.Value) bool {
+	if v == herr {
+		return true
+	}
+	p, ok := v.(*ssa.Phi)
+	if !ok {
+		return false
+	}
+	via := false
+	for i, e := range p.Edges {
+		if e == herr {
+			via = true
+			continue
+		}
+		if q, isPhi := e.(*ssa.Phi); isPhi && nilOnlyVia(q, herr) {
+			via = true
+			continue
+		}
+		if isNilConst(e) {
+			return false
+		}
+		// non-nil on this edge?
+		pred := p.Block().Preds[i]
+		nonNil := false
+		if call, isCall := e.(*ssa.Call); isCall {
+			n := calleeName(&call.Call)
+			if n == "fmt.Errorf" || n == "errors.New" {
+				nonNil = true
+			}
+		}
+		if _, isMI := e.(*ssa.MakeInterface); isMI {
+			nonNil = true
+		}
+		for b, hops := pred, 0; b != nil && hops < 4 && !nonNil; hops++ {
+			if len(b.Preds) != 1 {
+				break
+			}
+			if iff := blockIf(b.Preds[0]); iff != nil {
+				if bo, isB := iff.Cond.(*ssa.BinOp); isB && bo.X == e && isNilConst(bo.Y) {
+					if (bo.Op == token.NEQ && b.Preds[0].Succs[0] == b) || (bo.Op == token.EQL && b.Preds[0].Succs[1] == b) {
+						nonNil = true
+					}
+				}
+			}
+			b = b.Preds[0]
+		}
+		if !nonNil {
+			return false
+		}
+	}
+	return via
 }
 
 // threadedValue: p joins the results of a (typically inlined) helper that returns (value, error): in p's block
